@@ -82,7 +82,8 @@ fn parse_case(text: &str) -> Option<(String, Option<usize>, Sched, Option<Judge>
         "-" => None,
         x => Some(Judge::parse(x)?),
     };
-    let arena = ARENA_STATES.iter().copied().find(|a| format!("{:?}", a) == get("arena").unwrap_or(""))?;
+    let arena_text = get("arena").unwrap_or("").to_string();
+    let arena = ARENA_STATES.iter().copied().find(|a| format!("{:?}", a) == arena_text)?;
     let stream = text.split("stream=[").nth(1)?.split(']').next()?;
     Some((get("target")?.to_string(), block, Sched::parse(get("sched")?)?, judge, arena, unhex(stream)?))
 }
@@ -172,7 +173,14 @@ fn one_stream(rep: &mut Report, prop: &str, mode: Mode, stream: &[u8], blocks: &
                 }
             }
             if mode != Mode::Chunker {
-                let js = if block.is_none() { vec![Judge::Std(usize::MAX, None), Judge::Std(usize::MAX, Some(stream.len() as u64 / 2))] } else { judges(stream.len(), all_limits && matches!(sched, Sched::Full | Sched::Always(1))) };
+                let js = if block.is_none() {
+                    vec![Judge::Std(usize::MAX, None), Judge::Std(usize::MAX, Some(stream.len() as u64 / 2))]
+                } else if matches!(sched, Sched::Devs(_)) {
+                    // deviating readers: the judge rules are independent of the read schedule; three judges
+                    vec![Judge::Std(usize::MAX, None), Judge::SkipBelow(3), Judge::Std(1, Some(stream.len() as u64 / 2 + 1))]
+                } else {
+                    judges(stream.len(), all_limits && matches!(sched, Sched::Full | Sched::Always(1)))
+                };
                 for judge in js {
                     let case = Case { target: "reader", stream, block: *block, sched, judge: Some(judge), arena: ArenaState::Fresh };
                     if let Some(n) = judged(rep, prop, &case) {
@@ -214,7 +222,7 @@ fn all_streams(ctx: &Ctx, rep: &mut Report, mode: Mode, unit: &mut usize) {
                 return;
             }
             let bound = if len <= 4 { dev_bound_short } else if len <= len_dev { 1 } else { 0 };
-            one_stream(rep, &prop, mode, stream, &blocks, bound, len <= len_dev, &ARENA_STATES[..if len <= len_dev { 3 } else { 1 }]);
+            one_stream(rep, &prop, mode, stream, &blocks, bound, len <= len_dev, &ARENA_STATES[..if len <= len_dev { ARENA_STATES.len() } else { 1 }]);
             if len <= 4 {
                 // the 512 KiB default block size only with full reads
                 one_stream(rep, &prop, mode, stream, &[None], 0, false, &ARENA_STATES[..1]);
@@ -374,7 +382,7 @@ fn header_garbage(ctx: &Ctx, rep: &mut Report, mode: Mode, unit: &mut usize) {
 /// C10 clause: StreamReader footprint over long logs.
 fn footprint(ctx: &Ctx, rep: &mut Report, unit: &mut usize) {
     let prop = ctx.prop.clone();
-    let total = ctx.tier.pick(12usize << 20, 48 << 20);
+    let total = ctx.tier.pick(8usize << 20, 48 << 20);
     let kinds: Vec<(&str, Vec<u8>)> = vec![
         ("empty-records", encode_record(&[])),
         ("invalid-records", vec![0xFF]),
